@@ -157,7 +157,14 @@ def check(run, cases=None):
         ident = type(a).identity()
         e0 = type(a).identity()
         e0 += d                        # `+=` on a pose obtained from identity() must not affect later identity() results
+        e1 = type(a).identity()
+        e1[0] = 7.0                    # a pose is an ndarray: writing into one obtained from identity() must not reach later identity() results
+        e1[:] = e1 * 2.0
+        e2 = a.copy()
+        e2[:] = 0.0                    # ... and writing into a copy must not reach the original
         ident_again = type(a).identity()
+        if np.shares_memory(ident_again, type(a).identity()) or np.shares_memory(a, a.copy()):
+            run.violation(dict(k=k, op='identity-aliasing'), 'two identity() results (or a pose and its copy()) share memory', dict(case=c))
         if not np.array_equal(np.array(ident_again), np.array(ident)) or not np.array_equal(np.array(ident), np.array(type(a).identity().copy())):
             run.violation(dict(k=k, op='identity-after-iadd'), 'identity() differs after `e = identity(); e += delta`: %r' % (np.asarray(ident_again).tolist(),), dict(case=c))
 
@@ -189,7 +196,10 @@ def check(run, cases=None):
                               dict(case=c, expected=exp))
         # point action: pose (+) PoseRn and pose (+) ndarray
         int_pt = np.array([int(x) for x in c['pt']], dtype=np.int64)          # an integer-dtype array is a legal operand as well
-        for name, arg in (('a+PoseRn', PtCls(pt)), ('a+ndarray(point)', pt), ('a+ndarray(int point)', int_pt)):
+        forms = [('a+PoseRn', PtCls(pt)), ('a+ndarray(point)', pt), ('a+ndarray(int point)', int_pt)]
+        if all(abs(x) < 2 ** 24 for x in pt):
+            forms.append(('a+ndarray(float32 point)', pt.astype(np.float32)))      # exactly representable: the result must keep float64 accuracy
+        for name, arg in forms:
             if k in ('R2', 'R3') and name == 'a+PoseRn':
                 pass
             try:
@@ -208,6 +218,11 @@ def check(run, cases=None):
         try:
             r_int = a + idelta
             r_flt = a + idelta.astype(float)
+            if all(abs(int(x)) < 2 ** 24 for x in idelta):
+                r_f32 = a + idelta.astype(np.float32)
+                if not np.allclose(np.asarray(r_f32, dtype=float), np.asarray(r_flt, dtype=float), rtol=0, atol=TOL * 50 * S) or type(r_f32) is not type(r_flt):
+                    run.violation(dict(key, op='boxplus(float32 increment)'), 'a [+] float32 increment %r gives %r, with the same float64 increment %r | case %r' % (
+                        idelta.tolist(), np.asarray(r_f32).tolist(), np.asarray(r_flt).tolist(), c), dict(case=c))
             if not np.allclose(np.asarray(r_int, dtype=float), np.asarray(r_flt, dtype=float), rtol=0, atol=TOL * 50 * S) or type(r_int) is not type(r_flt):
                 run.violation(dict(key, op='boxplus(int increment)'), 'a [+] integer-dtype increment %r gives %r, with the same float increment %r | case %r' % (
                     idelta.tolist(), np.asarray(r_int).tolist(), np.asarray(r_flt).tolist(), c), dict(case=c))
